@@ -447,7 +447,7 @@ def _merge_sparse_by_pair_files(
             'up_gene_idx',
             shape=(n_up_indices,),
             dtype=gene_idx_dtype,
-            chunks=(min(1000000, n_up_indices),))
+            chunks=_marker_idx_chunks(n_up_indices))
         dst_grp.create_dataset(
             'down_pair_idx',
             shape=(n_pairs+1,),
@@ -456,7 +456,7 @@ def _merge_sparse_by_pair_files(
             'down_gene_idx',
             shape=(n_down_indices,),
             dtype=gene_idx_dtype,
-            chunks=(min(1000000, n_down_indices),))
+            chunks=_marker_idx_chunks(n_down_indices))
 
         col0_values = list(tmp_path_dict.keys())
         col0_values.sort()
@@ -501,6 +501,16 @@ def _merge_sparse_by_pair_files(
 
         dst_grp['up_pair_idx'][-1] = n_up_indices
         dst_grp['down_pair_idx'][-1] = n_down_indices
+
+
+def _marker_idx_chunks(n_indices):
+    """
+    HDF5 chunk shape for a 1-D array of n_indices marker indices
+    (None, i.e. contiguous, when there are no markers at all)
+    """
+    if n_indices == 0:
+        return None
+    return (min(1000000, n_indices),)
 
 
 def add_sparse_by_gene_markers_to_file(
